@@ -131,6 +131,7 @@ def run_tlc(work, module, cfg, env=None, workers=None, timeout=900, simulate=Non
         m = re.match(r"^The number of states generated: (\d+)", line)
         if m and simulate:
             res.generated = int(m.group(1))
+            res.distinct = int(m.group(1))      # simulation: states visited along the behaviours
     rc = proc.wait()
     if casef:
         casef.close()
